@@ -122,5 +122,16 @@ def run(rep, tier, seed, rng):
             ne2e += 1
             rep.violation("configured / not-built builds differ from the model (eligibility by allowlist, blocklist, ancestry): " + "; ".join(r["dis"])[:400],
                           gen_common.replay_data(r), found_input=gen_common.same_builds(r) is False)
-    rep.cov.update(e2e_projects=len(ecases), e2e_projects_with_lists=nlist, e2e_disagreements=ne2e)
+    # the decision is a function of the tree and the lists, not of what was asked before: the directed corpus and the
+    # projects with lists again on ONE worker thread (builds are then configured in definition order)
+    from .. import e2e
+    again = directed.cases() + [c for c in ecases[len(directed.cases()):] if any(("blocklist" in m or "allowlist" in m) for docs in c[0].values() for d in docs for m in (d.get("apps") or []))][:60]
+    res1 = e2e.run_batch(lz, dr, again, threads=1)
+    n1 = 0
+    for c, r in zip(again, res1):
+        if r["tags"] & {"configured", "nobuilds", "crash", "rc"}:
+            n1 += 1
+            rep.violation("configured / not-built builds differ from the model with one worker thread (builds configured in definition order): " + "; ".join(r["dis"])[:400],
+                          gen_common.replay_data(r, threads=1), found_input=gen_common.same_builds(r) is False)
+    rep.cov.update(e2e_projects=len(ecases), e2e_projects_with_lists=nlist, e2e_disagreements=ne2e, e2e_single_thread_runs=len(again), e2e_single_thread_disagreements=n1)
     rep.assumptions.append("ancestry requirement (app context must be the builder or an ancestor) is part of the configure model, see C01/C12 checks")
